@@ -300,6 +300,11 @@ func exec(f []string) string {
 			return "bad-op"
 		}
 		return parseSpend(f[1:]).validateTx()
+	case "multi":
+		if len(f) != 6 {
+			return "bad-op"
+		}
+		return parseSpend(f[1:]).runMulti()
 	case "par":
 		if len(f) != 6 {
 			return "bad-op"
